@@ -1165,6 +1165,22 @@ def np_amax(it, a, k):
     return minmax(it, [x], {}, False)
 
 
+def np_argmin(it, a, k, is_min=True):
+    """ASSUMED: numpy.argmin/argmax return an index at which the minimum/maximum is attained"""
+    x = as_vec(it, a[0])
+    p = it.p
+    r = p.fresh_def('argmin' if is_min else 'argmax', I)
+    p.note_idx(r)
+    n = term(x.n)
+    if not p.spec_mode and not p.truth(mk(n > 0)):
+        raise p.pyexc('ValueError')
+    p.assume(z3.And(0 <= r, r < n))
+    p.assume(Forall(0, x.n if isinstance(x.n, int) else SV(x.n),
+                    lambda i: mk(term(x.at(r), True) <= term(x.at(i.t), True)) if is_min else
+                    mk(term(x.at(r), True) >= term(x.at(i.t), True))))
+    return SV(r)
+
+
 def np_shape(it, a, k):
     x = a[0]
     if isinstance(x, Vec):
@@ -1292,6 +1308,7 @@ NUMPY = {
     'sum': np_sum, 'any': b_any, 'all': b_all, 'amin': np_amin, 'amax': np_amax, 'min': np_amin, 'max': np_amax,
     'shape': np_shape, 'squeeze': np_squeeze, 'isscalar': np_isscalar, 'interp': np_interp,
     'errstate': np_errstate, 'minimum': np_minimum, 'maximum': np_maximum, 'clip': np_clip,
+    'argmin': np_argmin, 'argmax': lambda it, a, k: np_argmin(it, a, k, False),
     'concatenate': np_concatenate, 'polyval': np_polyval, 'linspace': np_linspace, 'cumprod': np_cumprod, 'logical_and': np_logical_and, 'abs': b_abs, 'absolute': b_abs,
 }
 for _n_ in ('sqrt', 'log10', 'exp', 'log', 'arcsinh', 'ceil', 'floor', 'cos'):
